@@ -467,6 +467,262 @@ func translateLoad(sb *strings.Builder, fd *ast.FuncDecl) {
 	sb.WriteString("\n")
 }
 
+// ---- the Scalar constants, the methods that are one call of scMulAdd / scReduce, and isReduced ----
+
+var scConsts = []string{"scZero", "scOne", "scMinusOne"}
+
+func translateConsts(sb *strings.Builder, f *ast.File) {
+	found := map[string]bool{}
+	for _, d := range f.Decls {
+		gd, ok := d.(*ast.GenDecl)
+		if !ok || gd.Tok != token.VAR {
+			continue
+		}
+		for _, sp := range gd.Specs {
+			vs := sp.(*ast.ValueSpec)
+			for i, n := range vs.Names {
+				want := false
+				for _, c := range scConsts {
+					want = want || c == n.Name
+				}
+				if !want || i >= len(vs.Values) {
+					continue
+				}
+				// Scalar{[32]byte{...}}
+				outer, ok := vs.Values[i].(*ast.CompositeLit)
+				if !ok || len(outer.Elts) != 1 {
+					die("%s: unexpected shape of %s", pos(vs), n.Name)
+				}
+				inner, ok := outer.Elts[0].(*ast.CompositeLit)
+				if !ok || len(inner.Elts) != 32 {
+					die("%s: %s is not a 32-byte literal", pos(vs), n.Name)
+				}
+				var xs []string
+				for _, e := range inner.Elts {
+					v, ok := lit(e)
+					if !ok {
+						die("%s: non-constant byte in %s", pos(e), n.Name)
+					}
+					xs = append(xs, v.String())
+				}
+				fmt.Fprintf(sb, "def %s_bytes : List Int := [%s]\n", n.Name, strings.Join(xs, ", "))
+				fmt.Fprintf(sb, "def %s : Nat → Int := fun i => %s_bytes.getD i 0\n\n", n.Name, n.Name)
+				found[n.Name] = true
+			}
+		}
+	}
+	for _, c := range scConsts {
+		if !found[c] {
+			die("constant %s not found", c)
+		}
+	}
+}
+
+// a method whose body is `scMulAdd(&s.s, &A.s, &B.s, &C.s); return s`
+func translateWrappers(sb *strings.Builder, f *ast.File) {
+	operand := func(e ast.Expr) string {
+		// &X.s
+		u, ok := e.(*ast.UnaryExpr)
+		if !ok || u.Op != token.AND {
+			die("%s: operand is not &X.s", pos(e))
+		}
+		sel, ok := u.X.(*ast.SelectorExpr)
+		if !ok || sel.Sel.Name != "s" {
+			die("%s: operand is not &X.s", pos(e))
+		}
+		return sel.X.(*ast.Ident).Name
+	}
+	for _, name := range []string{"MultiplyAdd", "Add", "Subtract", "Negate", "Multiply"} {
+		var fd *ast.FuncDecl
+		for _, d := range f.Decls {
+			if x, ok := d.(*ast.FuncDecl); ok && x.Recv != nil && x.Name.Name == name {
+				fd = x
+			}
+		}
+		if fd == nil {
+			die("method %s not found", name)
+		}
+		recv := fd.Recv.List[0].Names[0].Name
+		if len(fd.Body.List) != 2 {
+			die("%s: method %s is not one call and a return", pos(fd), name)
+		}
+		es, ok := fd.Body.List[0].(*ast.ExprStmt)
+		if !ok {
+			die("%s: method %s: first statement is not a call", pos(fd), name)
+		}
+		call, ok := es.X.(*ast.CallExpr)
+		if !ok || call.Fun.(*ast.Ident).Name != "scMulAdd" || len(call.Args) != 4 || operand(call.Args[0]) != recv {
+			die("%s: method %s does not call scMulAdd(&%s.s, …)", pos(fd), name, recv)
+		}
+		ret, ok := fd.Body.List[1].(*ast.ReturnStmt)
+		if !ok || len(ret.Results) != 1 || ret.Results[0].(*ast.Ident).Name != recv {
+			die("%s: method %s does not return its receiver", pos(fd), name)
+		}
+		var params []string
+		for _, fl := range fd.Type.Params.List {
+			for _, n := range fl.Names {
+				params = append(params, fmt.Sprintf("(%s : Nat → Int)", n.Name))
+			}
+		}
+		fmt.Fprintf(sb, "/-- `(*Scalar).%s` -/\ndef Scalar_%s %s : List Int := scMulAdd %s %s %s\n\n", name, name, strings.Join(params, " "),
+			operand(call.Args[1]), operand(call.Args[2]), operand(call.Args[3]))
+	}
+	// SetUniformBytes / SetBytes: len check, zeroed wide buffer, copy, scReduce
+	for _, name := range []string{"SetUniformBytes", "SetBytes"} {
+		var fd *ast.FuncDecl
+		for _, d := range f.Decls {
+			if x, ok := d.(*ast.FuncDecl); ok && x.Recv != nil && x.Name.Name == name {
+				fd = x
+			}
+		}
+		if fd == nil {
+			die("method %s not found", name)
+		}
+		recv := fd.Recv.List[0].Names[0].Name
+		arg := fd.Type.Params.List[0].Names[0].Name
+		b := fd.Body.List
+		if len(b) != 5 {
+			die("%s: method %s has %d statements, expected 5", pos(fd), name, len(b))
+		}
+		// if len(x) != N { panic }
+		ifs, ok := b[0].(*ast.IfStmt)
+		var n *big.Int
+		if ok {
+			if c, ok := ifs.Cond.(*ast.BinaryExpr); ok && c.Op == token.NEQ {
+				if ce, ok := c.X.(*ast.CallExpr); ok && ce.Fun.(*ast.Ident).Name == "len" && ce.Args[0].(*ast.Ident).Name == arg {
+					n, _ = lit(c.Y)
+				}
+			}
+		}
+		if n == nil {
+			die("%s: method %s does not start with a length check", pos(fd), name)
+		}
+		// var wideBytes [64]byte
+		ds, ok := b[1].(*ast.DeclStmt)
+		if !ok {
+			die("%s: method %s: expected `var wideBytes [64]byte`", pos(fd), name)
+		}
+		vs := ds.Decl.(*ast.GenDecl).Specs[0].(*ast.ValueSpec)
+		at, ok := vs.Type.(*ast.ArrayType)
+		wl, ok2 := lit(at.Len)
+		if !ok || !ok2 || wl.Int64() != 64 || len(vs.Values) != 0 {
+			die("%s: method %s: expected a zeroed [64]byte", pos(fd), name)
+		}
+		wide := vs.Names[0].Name
+		// copy(wide[:], x[:])
+		cp, ok := b[2].(*ast.ExprStmt)
+		okc := false
+		if ok {
+			if ce, ok := cp.X.(*ast.CallExpr); ok && ce.Fun.(*ast.Ident).Name == "copy" && len(ce.Args) == 2 {
+				d, ok1 := ce.Args[0].(*ast.SliceExpr)
+				sx, ok2 := ce.Args[1].(*ast.SliceExpr)
+				okc = ok1 && ok2 && d.Low == nil && d.High == nil && sx.Low == nil && sx.High == nil && d.X.(*ast.Ident).Name == wide && sx.X.(*ast.Ident).Name == arg
+			}
+		}
+		if !okc {
+			die("%s: method %s: expected copy(%s[:], %s[:])", pos(fd), name, wide, arg)
+		}
+		// scReduce(&s.s, &wide)
+		rd, ok := b[3].(*ast.ExprStmt)
+		okr := false
+		if ok {
+			if ce, ok := rd.X.(*ast.CallExpr); ok && ce.Fun.(*ast.Ident).Name == "scReduce" && len(ce.Args) == 2 && operand(ce.Args[0]) == recv {
+				if u, ok := ce.Args[1].(*ast.UnaryExpr); ok && u.Op == token.AND && u.X.(*ast.Ident).Name == wide {
+					okr = true
+				}
+			}
+		}
+		if !okr {
+			die("%s: method %s: expected scReduce(&%s.s, &%s)", pos(fd), name, recv, wide)
+		}
+		fmt.Fprintf(sb, "/-- `(*Scalar).%s` on an input of the %s bytes it insists on: the first %s bytes of a zeroed 64-byte buffer, then `scReduce` -/\n", name, n, n)
+		fmt.Fprintf(sb, "def Scalar_%s (%s : Nat → Int) : List Int := scReduce (fun i => if i < %s then %s i else 0)\n\n", name, arg, n, arg)
+	}
+}
+
+// isReduced: a downward loop over the bytes with a tagless switch of comparisons against scMinusOne
+func translateIsReduced(sb *strings.Builder, f *ast.File) {
+	var fd *ast.FuncDecl
+	for _, d := range f.Decls {
+		if x, ok := d.(*ast.FuncDecl); ok && x.Recv == nil && x.Name.Name == "isReduced" {
+			fd = x
+		}
+	}
+	if fd == nil {
+		die("isReduced not found")
+	}
+	arg := fd.Type.Params.List[0].Names[0].Name
+	if len(fd.Body.List) != 2 {
+		die("%s: isReduced: expected a loop and a return", pos(fd))
+	}
+	loop, ok := fd.Body.List[0].(*ast.ForStmt)
+	if !ok {
+		die("%s: isReduced: expected a for loop", pos(fd))
+	}
+	// i := len(s.s) - 1; i >= 0; i--
+	init, ok1 := loop.Init.(*ast.AssignStmt)
+	cond, ok2 := loop.Cond.(*ast.BinaryExpr)
+	post, ok3 := loop.Post.(*ast.IncDecStmt)
+	if !ok1 || !ok2 || !ok3 || post.Tok != token.DEC || cond.Op != token.GEQ {
+		die("%s: isReduced: loop is not `for i := len-1; i >= 0; i--`", pos(loop))
+	}
+	iv := init.Lhs[0].(*ast.Ident).Name
+	ib, ok := init.Rhs[0].(*ast.BinaryExpr)
+	if !ok || ib.Op != token.SUB {
+		die("%s: isReduced: loop does not start at len-1", pos(loop))
+	}
+	if one, ok := lit(ib.Y); !ok || one.Int64() != 1 {
+		die("%s: isReduced: loop does not start at len-1", pos(loop))
+	}
+	if z, ok := lit(cond.Y); !ok || z.Sign() != 0 || cond.X.(*ast.Ident).Name != iv {
+		die("%s: isReduced: loop condition is not i >= 0", pos(loop))
+	}
+	if len(loop.Body.List) != 1 {
+		die("%s: isReduced: loop body is not one switch", pos(loop))
+	}
+	sw, ok := loop.Body.List[0].(*ast.SwitchStmt)
+	if !ok || sw.Tag != nil || sw.Init != nil {
+		die("%s: isReduced: loop body is not a tagless switch", pos(loop))
+	}
+	side := func(e ast.Expr) string {
+		// X.s[i]
+		ix, ok := e.(*ast.IndexExpr)
+		if !ok || ix.Index.(*ast.Ident).Name != iv {
+			die("%s: isReduced: comparison operand is not X.s[%s]", pos(e), iv)
+		}
+		sel := ix.X.(*ast.SelectorExpr)
+		n := sel.X.(*ast.Ident).Name
+		if n == arg {
+			return "(s i)"
+		}
+		return "(" + n + " i)"
+	}
+	var arms []string
+	for _, c := range sw.Body.List {
+		cc := c.(*ast.CaseClause)
+		if len(cc.List) != 1 || len(cc.Body) != 1 {
+			die("%s: isReduced: unsupported case", pos(cc))
+		}
+		be, ok := cc.List[0].(*ast.BinaryExpr)
+		if !ok {
+			die("%s: isReduced: case is not a comparison", pos(cc))
+		}
+		op := map[token.Token]string{token.GTR: ">", token.LSS: "<", token.GEQ: "≥", token.LEQ: "≤", token.EQL: "=", token.NEQ: "≠"}[be.Op]
+		if op == "" {
+			die("%s: isReduced: unsupported comparison", pos(cc))
+		}
+		ret, ok := cc.Body[0].(*ast.ReturnStmt)
+		if !ok {
+			die("%s: isReduced: case does not return", pos(cc))
+		}
+		arms = append(arms, fmt.Sprintf("if %s %s %s then %s", side(be.X), op, side(be.Y), ret.Results[0].(*ast.Ident).Name))
+	}
+	last := fd.Body.List[1].(*ast.ReturnStmt).Results[0].(*ast.Ident).Name
+	fmt.Fprintf(sb, "/-- `isReduced`: the loop over i = n-1, …, 0 (the argument counts the bytes still to look at) -/\n")
+	fmt.Fprintf(sb, "def isReduced_loop (s : Nat → Int) : Nat → Bool\n  | 0 => %s\n  | i + 1 =>\n    %s\n    else isReduced_loop s i\n\n", last, strings.Join(arms, "\n    else "))
+	fmt.Fprintf(sb, "def isReduced (s : Nat → Int) : Bool := isReduced_loop s 32\n\n")
+}
+
 func main() {
 	if len(os.Args) != 2 {
 		die("usage: sclimbs <repo root>")
@@ -504,6 +760,9 @@ func main() {
 		}
 		translateFunc(&sb, fd)
 	}
+	translateConsts(&sb, f)
+	translateWrappers(&sb, f)
+	translateIsReduced(&sb, f)
 	sb.WriteString("end PatVerif.Generated.ScLimbs\n")
 	fmt.Print(sb.String())
 }
